@@ -82,8 +82,11 @@ def gen_scenarios(spec, rng, n):
             if client == "rest" and not m.get("http"):
                 continue
             actors[j % nact]["ops"].append(gen_op(spec, rng, fs, s, m, af, f"o{j}", client))
-        out.append({"client": client, "actors": [a for a in actors if a["ops"]], "jitter_default": 0.0,
-                    "entropy_seed": rng.randrange(2**32)})
+        sc = {"client": client, "actors": [a for a in actors if a["ops"]], "jitter_default": 0.0,
+              "entropy_seed": rng.randrange(2**32)}
+        if len(sc["actors"]) > 1 and rng.random() < 0.4:
+            sc["clients"] = "per_actor"        # several clients in one process: ids must still be fresh
+        out.append(sc)
     return out
 
 
